@@ -134,6 +134,24 @@ def pregen_hm(work):
     return None
 
 
+def pregen_al(work):
+    """Ekit/Generated/ArrayListGo.lean: list/array_list.go as terms of the fifth MiniGo instance (harness/minigoal);
+    it imports the translated internal/slice (SliceGo), which `slice.Add/Delete/Shrink` mean, so that one is regenerated first."""
+    e = pregen_slicego(work)
+    if e:
+        return e
+    binp, blog = work.build("minigoal")
+    if binp is None:
+        return "Go->MiniGo(AL) translator does not build: " + blog
+    out = os.path.join(core.LEAN, "Ekit", "Generated", "ArrayListGo.lean")
+    tmp = os.path.join(work.dir, "ArrayListGo.lean")
+    rc, log = core.sh([binp, "-root", work.repo, "-out", tmp], env=core.GOENV, timeout=120)
+    if rc != 0:
+        return "Go->MiniGo(AL) translator failed (list/array_list.go left the translated subset): " + log
+    core.write_if_changed(out, open(tmp).read())
+    return None
+
+
 def lean_obligations(res, pid, extra_targets=()):
     """lake build of the property module + axiom audit + forbidden-token grep.
     Returns True iff every proof obligation of `pid` is discharged."""
